@@ -855,3 +855,53 @@ Proof.
   destruct (run (decode_loop (S (length inp)) cfg 0 (start_state st)) inp) as [r1 rest1].
   cbn [fst] in L. destruct r1 as [[a s]|e| |]; inversion D; subst; try exact H0. exact L.
 Qed.
+
+(* ---- streams of encodings (C11): each Decode call returns the content of its own pickle, whatever
+   the Decoder decoded before, and leaves what it returned earlier as it was --------------------- *)
+
+(* one stream element: the encoder configuration used for it (protocols may differ from pickle to
+   pickle), the value, and the content norm2 predicts *)
+Definition sitem := (econfig * rval * cv)%type.
+
+Definition sbytes (it : sitem) : bytes := let '(c, v, _) := it in output (encode c v).
+
+Inductive enc_stream (cfg : dconfig) : dstate -> bytes -> list sitem -> list (val * cv) -> dstate -> bytes -> Prop :=
+| es_nil : forall st inp, enc_stream cfg st inp [] [] st inp
+| es_cons : forall st inp it its x st1 rest1 xs stf restf,
+    decode cfg st inp = ((Ok x, st1), rest1) ->
+    content (d_heap st1) x (snd it) -> gext (d_heap st) (d_heap st1) ->
+    enc_stream cfg st1 rest1 its xs stf restf ->
+    enc_stream cfg st inp (it :: its) ((x, snd it) :: xs) stf restf.
+
+Lemma enc_stream_gext : forall cfg st inp its xs stf restf,
+  enc_stream cfg st inp its xs stf restf -> gext (d_heap st) (d_heap stf).
+Proof.
+  intros cfg st inp its xs stf restf H. induction H; [apply gext_refl|]. eapply gext_trans; eassumption.
+Qed.
+
+(* everything returned along the way still has its content in the final heap *)
+Lemma enc_stream_contents : forall cfg st inp its xs stf restf,
+  enc_stream cfg st inp its xs stf restf -> Forall (fun xc => content (d_heap stf) (fst xc) (snd xc)) xs.
+Proof.
+  intros cfg st inp its xs stf restf H. induction H; constructor; [|assumption].
+  cbn [fst snd]. eapply content_mono; [eapply enc_stream_gext; eassumption|assumption].
+Qed.
+
+Theorem decode_stream_of_encodings : forall pd su load g its st rest,
+  hook_spec load g -> heap_bound st ->
+  Forall (fun it : sitem => let '(c, v, cvl) := it in
+            e_strict c = su /\ (0 <= e_proto c <= 5)%Z /\ norm2 c pd g v = Some cvl) its ->
+  exists xs stf,
+    enc_stream (Build_dconfig pd su load) st (concat (map sbytes its) ++ rest) its xs stf rest /\
+    heap_bound stf.
+Proof.
+  intros pd su load g its. induction its as [|[[c v] cvl] r IH]; intros st rest HL Hb F.
+  - exists [], st. split; [apply es_nil|exact Hb].
+  - inversion F as [|? ? Hx F']; subst. cbv beta iota in Hx. destruct Hx as [Es [Hp Hn]].
+    cbn [map concat sbytes]. rewrite <- app_assoc.
+    destruct (encode_decode_maps c pd load g v cvl st (concat (map sbytes r) ++ rest) HL Hp Hn Hb)
+      as [_ [x [st1 [D [C1 [G1 B1]]]]]].
+    destruct (IH st1 rest HL B1 F') as [xs [stf [S Bf]]].
+    exists ((x, cvl) :: xs), stf. split; [|exact Bf].
+    eapply (es_cons _ st _ (c, v, cvl)); [unfold dcfg_h in D; rewrite Es in D; exact D|exact C1|exact G1|exact S].
+Qed.
